@@ -59,8 +59,59 @@ def _validator_def(nm, v, prov, indent="    "):
     return [f"{indent}def {nm}(self, *args, **kwargs):", f"{indent}    return REC.validator({gid!r}, {nm!r}, kwargs)"]
 
 
+def transition_kwargs(spec, t):
+    kw = []
+    conds = [repr(g["name"]) for g in t["guards"] if g["kind"] == "cond"]
+    unl = [repr(g["name"]) for g in t["guards"] if g["kind"] == "unless"]
+    if conds:
+        kw.append(f"cond={_list_expr(conds)}")
+    if unl:
+        kw.append(f"unless={_list_expr(unl)}")
+    if t["validators"]:
+        kw.append(f"validators={_list_expr([repr(v) for v in t['validators']])}")
+    for g in ("before", "on", "after"):
+        items = [_ref_expr(spec, r) for r in t["refs"][g]]
+        if items:
+            kw.append(f"{g}={_list_expr(items)}")
+    if t["internal"]:
+        kw.append("internal=True")
+    return kw
+
+
+def state_kwargs(spec, st):
+    kw = []
+    if st.get("name"):
+        kw.append(repr(st["name"]))
+    if st.get("value") is not None:
+        kw.append(f"value={st['value']['expr']}")
+    if st["initial"]:
+        kw.append("initial=True")
+    if st["final"]:
+        kw.append("final=True")
+    refs = spec["state_refs"].get(st["id"], {})
+    for g in ("enter", "exit"):
+        items = [_ref_expr(spec, r) for r in refs.get(g, [])]
+        if items:
+            kw.append(f"{g}={_list_expr(items)}")
+    return kw
+
+
 def render(spec, cls_suffix=""):
-    uid = f"{spec['uid']}{cls_suffix}"
+    if spec.get("style"):
+        from . import styles
+
+        return styles.render_styled(spec, cls_suffix)
+    return render_canonical(spec, cls_suffix)
+
+
+def render_providers(spec, uid):
+    """Source lines of the model and listener classes."""
+    full = render_canonical(dict(spec, style=None), "", _providers_only=True, _uid=uid)
+    return full
+
+
+def render_canonical(spec, cls_suffix="", _providers_only=False, _uid=None):
+    uid = _uid or f"{spec['uid']}{cls_suffix}"
     L = list(spec.get("prelude", []))
     listeners = [p for p in spec["providers"] + spec.get("late", []) if p not in ("sm", "model")]
     # listener + model classes
@@ -104,6 +155,8 @@ def render(spec, cls_suffix=""):
                      "    def __hash__(self):", "        return 7", "    _eqkey = 'same'"]
         L += body or ["    pass"]
         L.append("")
+    if _providers_only:
+        return L
     strict = spec["opts"].get("strict")
     L.append(f"class M_{uid}(StateMachine{', strict_states=True' if strict else ''}):")
     # functions referenced by object
@@ -129,6 +182,9 @@ def render(spec, cls_suffix=""):
         L.append(f"    {st['id']} = State({', '.join(kw)})")
     # transitions
     def t_kwargs(t):
+        return transition_kwargs(spec, t)
+
+    def _unused(t):
         kw = []
         conds = [repr(g["name"]) for g in t["guards"] if g["kind"] == "cond"]
         unl = [repr(g["name"]) for g in t["guards"] if g["kind"] == "unless"]
